@@ -1,0 +1,57 @@
+// Copyright 2020-2025 Buf Technologies, Inc.
+//
+// Licensed under the Apache License, Version 2.0 (the "License");
+// you may not use this file except in compliance with the License.
+// You may obtain a copy of the License at
+//
+//      http://www.apache.org/licenses/LICENSE-2.0
+//
+// Unless required by applicable law or agreed to in writing, software
+// distributed under the License is distributed on an "AS IS" BASIS,
+// WITHOUT WARRANTIES OR CONDITIONS OF ANY KIND, either express or implied.
+// See the License for the specific language governing permissions and
+// limitations under the License.
+
+//go:build verif
+
+package bufimage
+
+// Contracts for the gocv verifier: C02, ImageByDir. Comment-only.
+// Spec functions k_*: /verif/specs/C02_order.spec (k_dir, k_requested, trusted normalpath.ByDir).
+//
+// TRUSTED (exported one-line wrapper of imageWithOnlyPaths, whose verified C11 contract speaks about the fields of the
+// concrete *image; the engine does not link the Image interface to *image, and its `modifies heap` would erase facts about
+// images built earlier): the result is a new image, labelled with the request it was built for (k_requested: an
+// uninterpreted function of the freshly allocated result). What the image holds for that request is C11's subject
+// (imageWithOnlyPaths#post[selected-are-included] / [non-imports-are-the-selected]).
+//@ trusted func ImageWithOnlyPaths(image, paths, excludePaths) (r, err)
+//@   modifies heap
+//@   ensures err == nil ==> r != nil && k_requested(r) == paths
+//
+// ImageByDir: one image per directory that holds a non-import file, in increasing order of the directory name,
+// whatever order the files of the image (or the directory map) are enumerated in.
+//@ func ImageByDir(image) (r, err)
+//@   property C02
+//@   modifies heap
+//@   use k_nonImports-step, k_nonImports-zero
+//@   ensures one-dir-per-image: err == nil ==> (forall k int, j int :: 0 <= k && k < len(r) && 0 <= j && j < len(k_requested(r[k])) ==> k_dir(k_requested(r[k])[j]) == k_dir(k_requested(r[k])[0]))
+//@   ensures no-empty-image: err == nil ==> (forall k int :: 0 <= k && k < len(r) ==> r[k] != nil && len(k_requested(r[k])) > 0)
+//@   ensures dirs-strictly-increasing: err == nil ==> (forall k int, l int :: 0 <= k && k < l && l < len(r) ==> k_dir(k_requested(r[k])[0]) < k_dir(k_requested(r[l])[0]))
+//@   ensures paths-sorted: err == nil ==> (forall k int, a int, b int :: 0 <= k && k < len(r) && 0 <= a && a < b && b < len(k_requested(r[k])) ==> k_requested(r[k])[a] <= k_requested(r[k])[b])
+//@   ensures every-non-import-placed: err == nil ==> (forall f int :: 0 <= f && f < len(image.Files()) && !image.Files()[f].IsImport() ==> (exists k int, j int :: 0 <= k && k < len(r) && 0 <= j && j < len(k_requested(r[k])) && k_requested(r[k])[j] == normalpath.Normalize(image.Files()[f].Path())))
+//@   ensures only-non-imports: err == nil ==> (forall k int, j int :: 0 <= k && k < len(r) && 0 <= j && j < len(k_requested(r[k])) ==> (exists f int :: 0 <= f && f < len(image.Files()) && !image.Files()[f].IsImport() && k_requested(r[k])[j] == normalpath.Normalize(image.Files()[f].Path())))
+//@   canary ensures err != nil
+//@   canary ensures err == nil ==> len(r) <= 1
+//@   loop 0 invariant count: len(paths) == k_nonImports(imageFiles, $i)
+//@   loop 0 invariant collected: forall f int :: 0 <= f && f < $i && !imageFiles[f].IsImport() ==> 0 <= k_nonImports(imageFiles, f) && k_nonImports(imageFiles, f) < len(paths) && paths[k_nonImports(imageFiles, f)] == imageFiles[f].Path()
+//@   loop 0 invariant only-non-imports: forall j int :: 0 <= j && j < len(paths) ==> (exists f int :: 0 <= f && f < $i && !imageFiles[f].IsImport() && imageFiles[f].Path() == paths[j] && k_nonImports(imageFiles, f) == j)
+//@   loop 1 invariant listed-keys: forall j int :: 0 <= j && j < len(dirs) ==> dirs[j] in dirToPaths && dirs[j] in $visited
+//@   loop 1 invariant visited-listed: forall d string :: d in $visited ==> (exists j int :: 0 <= j && j < len(dirs) && dirs[j] == d)
+//@   loop 1 invariant listed-once: forall a int, b int :: 0 <= a && a < b && b < len(dirs) ==> dirs[a] != dirs[b]
+//@   loop 2 invariant len(newImages) == $i
+//@   loop 2 invariant built-for-dir: forall k int :: 0 <= k && k < $i ==> newImages[k] != nil && k_requested(newImages[k]) == dirToPaths[dirs[k]]
+//@   assert before "sort.Strings(dirs)" all-dirs-listed: forall d string :: d in dirToPaths ==> (exists j int :: 0 <= j && j < len(dirs) && dirs[j] == d)
+//@   assert before "newImages := make" dirs-are-keys: forall j int :: 0 <= j && j < len(dirs) ==> dirs[j] in dirToPaths
+//@   assert before "newImages := make" all-dirs-sorted: forall d string :: d in dirToPaths ==> (exists j int :: 0 <= j && j < len(dirs) && dirs[j] == d)
+//@   assert before "newImages := make" dirs-strict: forall a int, b int :: 0 <= a && a < b && b < len(dirs) ==> dirs[a] < dirs[b]
+//@   assert before "newImages := make" dir-lists-only-non-imports: forall k int, j int :: 0 <= k && k < len(dirs) && 0 <= j && j < len(dirToPaths[dirs[k]]) ==> (exists f int :: 0 <= f && f < len(imageFiles) && !imageFiles[f].IsImport() && dirToPaths[dirs[k]][j] == normalpath.Normalize(imageFiles[f].Path()))
